@@ -1,5 +1,5 @@
 #!/bin/bash
-# re-run every seeded change against the quick check of its property; prints one line per change (expected: rc=1)
+# re-run every seeded change against the quick check of its property; prints one line per change (expected: rc=1, except the changes whose meta.json says the property still holds: rc=0)
 V="$(cd "$(dirname "$0")/.." && pwd)"
 cd "$V"
 if [ -n "${VP_RUN_REPO:-}" ]; then export VERIF_REPO="$VP_RUN_REPO"; sed -i "s#=> /repo#=> $VERIF_REPO#" go/go.mod; bin/check setup >/dev/null 2>&1; fi
@@ -11,5 +11,6 @@ for d in seeded/*/; do
   rc=$(echo "$out" | grep -o "rc=[0-9]*" | head -1)
   found=$(echo "$out" | grep -c "^VIOLATION" )
   nof=$(echo "$out" | grep -c "no-failing-input-found")
-  echo "$id $prop $rc violations=$found without-input=$nof"
+  exp=$(python3 -c "import json;print('rc=0' if json.load(open('$d/meta.json')).get('expected','').startswith('rc=0') else 'rc=1')")
+  echo "$id $prop $rc violations=$found without-input=$nof expected=$exp $([ "$rc" = "$exp" ] || echo UNEXPECTED)"
 done
